@@ -139,6 +139,9 @@ class ProgressBar(Widget):
                 a.append((self.normal, maxcol - ccol - 1))
             c._attr = [a]
             c._cs = [[(None, len(c._text[0]))]]
+        elif ccol == 0:
+            # less than one column complete and no room for the smoothing character: no (empty) complete run
+            c._attr = [[(self.normal, maxcol)]]
         else:
             c._attr = [[(self.complete, ccol), (self.normal, maxcol - ccol)]]
         return c
